@@ -24,8 +24,3 @@ Definition g_reparse (s : bytes) : bool :=
 
 (** known finding: some borrowed position of some inventory of the object is spelled with an escape *)
 Definition g_known_escape (invs : list bytes) : bool := existsb c07_escaped_string invs.
-
-(** both classes at once: (escaped string in some inventory, empty logical path in the root inventory) *)
-Definition g_known (root : option bytes) (escaped : list bytes) : bool * bool :=
-  (existsb c07_escaped_string escaped,
-   match root with Some r => c07_empty_logical_path r | None => false end).
